@@ -1,5 +1,5 @@
 """One entry per property: which rules run over which configurations."""
-from rules import fd
+from rules import fd, tls, router
 
 LEVEL = {}
 
@@ -29,11 +29,73 @@ def check_C11(ctx):
     ctx.assume("panicking (unwind) paths are outside the all-paths rules")
 
 
+LEVEL["C14"] = ("Decides the structural clause of C14 only: every function that exchanges the per-thread attachment tables restores "
+                "each table to its entry contents on every normal return (including the serialisation-error and OS-error exits), "
+                "the tables are message-private while bincode runs user code (nested sends/receives), and the platform send takes the "
+                "attachment vectors by value so they are dropped on every exit. Not decided: attachment identity as observed; panics "
+                "inside user Serialize impls (unwind paths excluded).")
+
+
+def check_C14(ctx):
+    for cfg, F in ctx.configs(["K1", "K3"]):
+        tls.rule_tls_restore(ctx, cfg, F)
+        ctx.rule("TLS-RESTORE").floor("exchange_sites[%s]" % cfg, 8, cfg)
+        ctx.rule("TLS-RESTORE").floor("user_code_calls[%s]" % cfg, 2, cfg)
+        tls.rule_args_owned(ctx, cfg, F)
+        ctx.rule("SEND-ARGS-OWNED").floor("send_fns[%s]" % cfg, 1, cfg)
+    ctx.assume("bincode::serialize_into / bincode::deserialize are the only entry points through which user Serialize/Deserialize code runs inside the bracket")
+    ctx.assume("unwind paths excluded: a panicking Serialize impl is outside the rule")
+
+
+LEVEL["C17"] = ("Decides the structural clause of C17 only: in the router's event loop the Shutdown message and the closure of the wake-up channel "
+                "each lead, on every feasible path, to return with no further select and no handler invocation (STOP-EXIT); the handler table is "
+                "emptied before the acknowledgement (STOP-DROP-FIRST); no table lookup is unwrapped where the wake-up id is possible (STOP-NOPANIC); "
+                "the proxy's flag test dominates every send and the flag-set edge sends nothing, under one guard (STOP-FLAG). Not decided: "
+                "deadlock freedom with user callbacks that re-enter the proxy; timing of downstream disconnection.")
+
+
+def check_C17(ctx):
+    for cfg, F in ctx.configs(["K1", "K3"]):
+        router.rules_run(ctx, cfg, F, "C17")
+        ctx.rule("STOP-EXIT").floor("run_fns[%s]" % cfg, 1, cfg)
+        router.rule_stop_flag(ctx, cfg, F)
+        ctx.rule("STOP-FLAG").floor("proxy_senders[%s]" % cfg, 2, cfg)
+    ctx.assume("the router value is dropped when run() returns (it is a temporary in the thread closure), which drops the receiver set")
+
+
+LEVEL["C07"] = ("Decides the structural clause of C07 only: control messages and wake-ups are paired 1:1 (RT-PAIR); the router reads exactly one control "
+                "message per wake-up (RT-ONE-MSG); a route is inserted under the id returned for the receiver of the same control message and each "
+                "event's message is dispatched exactly once to the handler keyed by the event's id (RT-KEY); a closed event removes exactly that "
+                "handler (RT-REMOVE); forwarding closures send once (RT-FORWARD). Not decided: order and exactly-once as observed at run time "
+                "(inherits the receiver set, C06).")
+
+
+def check_C07(ctx):
+    for cfg, F in ctx.configs(["K1", "K3"]):
+        router.rule_rt_pair(ctx, cfg, F)
+        ctx.rule("RT-PAIR").floor("control_sends[%s]" % cfg, 2, cfg)
+        ctx.rule("RT-PAIR").floor("wakeup_sends[%s]" % cfg, 2, cfg)
+        router.rules_run(ctx, cfg, F, "C07")
+        ctx.rule("RT-ONE-MSG").floor("wakeup_paths[%s]" % cfg, 1, cfg)
+        ctx.rule("RT-KEY").floor("dispatch_paths[%s]" % cfg, 1, cfg)
+        ctx.rule("RT-KEY").floor("insert_sites[%s]" % cfg, 1, cfg)
+        ctx.rule("RT-REMOVE").floor("remove_paths[%s]" % cfg, 1, cfg)
+        router.rule_forward_closure(ctx, cfg, F)
+        ctx.rule("RT-FORWARD").floor("forward_closures[%s]" % cfg, 1, cfg)
+    ctx.assume("Result::map runs its closure iff the receiver is Ok; crossbeam and the receiver set deliver in order (C06)")
+
+
 # --------------------------------------------------------------------------- registry metadata
 NOT_APPLICABLE = {}
 WITNESS_PROPS = []
 _TECH = "static analysis over rustc MIR facts: "
 META = {
+    "C17": {"technique": _TECH + "path-sensitive exploration of the router loop with accumulated event/control facts; dominance rules on the proxy",
+            "note": "trusted: IpcReceiverSet semantics (C06); user callbacks do not re-enter the proxy; unwind paths excluded"},
+    "C07": {"technique": _TECH + "pairing/post-dominance of control and wake-up sends; provenance of table keys and dispatched messages along feasible paths",
+            "note": "trusted: crossbeam FIFO; Result::map closure semantics; receiver-set ordering (C06)"},
+    "C14": {"technique": _TECH + "path-sensitive abstract interpretation of the side-table contents (ENTRY/EMPTY/message) over every exchange site",
+            "note": "trusted: bincode entry points are the only way user serde code runs; unwind paths excluded; tables identified by RefCell borrow + element type"},
     "C11": {"technique": _TECH + "path-sensitive descriptor typestate, ownership summaries, Drop/close-on-exec rules",
             "note": "trusted: MIR of nightly == what stable compiles; kernel/libc semantics of close/accept/dup/shm_open; unwind paths excluded; macOS/Windows backends not analysed (no target std installed)"},
 }
